@@ -188,7 +188,7 @@ def pretty(g):
 
 class M:
     """model node"""
-    __slots__ = ("op", "kids", "s", "a", "b", "ctype", "action", "errmsg", "rs", "mi_msg", "mi_rof")
+    __slots__ = ("op", "kids", "s", "a", "b", "ctype", "action", "action1", "errmsg", "rs", "mi_msg", "mi_rof")
 
     def __init__(self, op, kids=(), s="", a=0, b=0):
         self.op = op
@@ -198,6 +198,7 @@ class M:
         self.b = b
         self.ctype = None
         self.action = 0
+        self.action1 = 0
         self.errmsg = ""
         self.rs = None  # rule-level switch for C13: (kind, a)
         self.mi_msg = ""
@@ -403,7 +404,9 @@ def expand(n):
         return E("ENABLE", k)
     if o == "disable":
         return E("DISABLE", k)
-    if o in ("state", "action", "control"):
+    if o == "action":
+        return E("SCOPE", k, a=2, b=p["fam"])
+    if o in ("state", "control"):
         return E("SCOPE", k)
     if o == "discard":
         return E("SUCCESS")
@@ -503,6 +506,7 @@ class Lowered:
         if n.op == "raise_message":
             m.errmsg = n.p["msg"]  # raise_message< Cs... > carries its text as error_message
         m.action = self.g.actions.get(ct, 0)
+        m.action1 = self.g.fam1.get(ct, 0)
         self.reg.append((ct, idx))
         if ct not in self.by_ctype:
             self.by_ctype[ct] = idx
@@ -694,6 +698,8 @@ def emit_grammar(g, gi, cfgset_macro="VF_CFGS"):
             parts.append("n.b = %d;" % m.b)
         if m.action:
             parts.append("n.action = %d;" % m.action)
+        if m.action1:
+            parts.append("n.action1 = %d;" % m.action1)
         if m.errmsg:
             parts.append("n.errmsg = \"%s\";" % m.errmsg)
         if m.mi_msg:
@@ -892,7 +898,7 @@ class Gen:
         r = self.r
         k = lambda n: self.kids(n, depth, nrules)
         if o in ("seq", "sor"):
-            return N(o, k(r.choice([2, 2, 3])))
+            return N(o, k(r.choice([1, 2, 2, 2, 3])))  # one element: the guard-less shortcut of seq / the last-alternative path of sor
         if o in ("star", "plus", "opt", "at", "not_at", "must", "partial", "star_partial", "strict", "star_strict", "enable", "disable"):
             return N(o, k(r.choice([1, 1, 2])))
         if o in ("if_must", "opt_must", "star_must"):
